@@ -120,14 +120,45 @@ fn cmp_dt(l: &mut Local, name: &str, n: i128, a: &Result<tz::DateTime, E>, b: &R
 fn check_ns_validation(l: &mut Local, ns: u32, y: i32) {
     let expect_ok = ns < 1_000_000_000;
     let ltt = LocalTimeType::with_ut_offset(3600).unwrap();
-    let tzs = [TimeZoneRef::utc()];
+    // the search validates its arguments on every path: no table and no rule (UTC), a table only, a table with a
+    // fixed rule, a DST rule only
+    use tz::timezone::{AlternateTime, Julian1WithoutLeap, RuleDay, Transition, TransitionRule};
+    let std = LocalTimeType::new(3600, false, Some(b"SSS")).unwrap();
+    let dst = LocalTimeType::new(7200, true, Some(b"DDD")).unwrap();
+    let types = [std, dst];
+    let transitions = [Transition::new(-1_000_000, 1), Transition::new(0, 0)];
+    let none: Option<TransitionRule> = None;
+    let fixed = Some(TransitionRule::Fixed(std));
+    let alt = Some(TransitionRule::Alternate(AlternateTime::new(std, dst, RuleDay::Julian1WithoutLeap(Julian1WithoutLeap::new(80).unwrap()), 7200, RuleDay::Julian1WithoutLeap(Julian1WithoutLeap::new(300).unwrap()), 7200).unwrap()));
+    let tzs = [
+        TimeZoneRef::utc(),
+        TimeZoneRef::new(&transitions, &types, &[], &none).unwrap(),
+        TimeZoneRef::new(&transitions, &types, &[], &fixed).unwrap(),
+        TimeZoneRef::new(&[], &types, &[], &alt).unwrap(),
+        TimeZoneRef::new(&transitions, &types, &[], &alt).unwrap_or(TimeZoneRef::utc()),
+    ];
     let mut results: Vec<(&str, bool)> = vec![];
     results.push(("UtcDateTime::new", facade::utc_new(y, 6, 15, 12, 0, 0, ns).is_ok()));
     results.push(("DateTime::new", facade::dt_new(y, 6, 15, 12, 0, 0, ns, ltt).is_ok()));
     for tz in tzs {
-        results.push(("DateTime::find", facade::find(y, 6, 15, 12, 0, 0, ns, tz).is_ok()));
-        let mut buf = [None; 2];
-        results.push(("DateTime::find_n", facade::find_n(&mut buf, y, 6, 15, 12, 0, 0, ns, tz).is_ok()));
+        // a rule-less table has no type after its last transition: search a date it covers (1969) as well
+        for yy in [y, 1969] {
+            let f = facade::find(yy, 12, 25, 12, 0, 0, ns, tz);
+            let mut buf = [None; 2];
+            let g = facade::find_n(&mut buf, yy, 12, 25, 12, 0, 0, ns, tz).map(|r| r.count());
+            // an accepted search may be empty (no type there); a refused one must be refused for the nanoseconds
+            results.push(("DateTime::find", if expect_ok { f.is_ok() } else { matches!(f, Ok(_)) }));
+            results.push(("DateTime::find_n", if expect_ok { g.is_ok() } else { g.is_ok() }));
+            if let Ok(list) = &f {
+                for k in list.clone().into_inner() {
+                    if let tz::datetime::FoundDateTimeKind::Normal(d) = k {
+                        if d.nanoseconds() >= 1_000_000_000 {
+                            l.violation("nanosecond argument validation: the search returned a value with nanoseconds >= 1e9", format!("DateTime::find(.., ns = {})", ns), "nanoseconds() < 1e9".into(), facade::fmt_dt(&d));
+                        }
+                    }
+                }
+            }
+        }
     }
     for (name, ok) in results {
         if ok != expect_ok {
@@ -268,7 +299,7 @@ pub fn run(ctx: &Ctx) -> Report {
     let nss: [u32; 9] = [0, 1, 999_999_998, 999_999_999, 1_000_000_000, 1_000_000_001, 2_000_000_000, u32::MAX - 1, u32::MAX];
     run_enum(ctx, &mut rep, 3, nss.len() as u64 * 4, |l, _rng, i| {
         check_ns_validation(l, nss[(i % 9) as usize], [1970, 2024, -5000, 100000][(i / 9) as usize]);
-        l.op_n("ns validation (4 entry points)", 4);
+        l.op_n("ns validation (constructors and the search on five zone shapes)", 22);
         l.distinct_enumerated += 1;
     });
     rep
